@@ -218,8 +218,28 @@ func bitsOfEncoded(v ssa.Value, depth int, use *ssa.BasicBlock) []Bit {
 			return append(bitsOfEncoded(x.X, depth+1, use), bitsOfEncoded(x.Y, depth+1, use)...)
 		case token.SHL:
 			if s, ok := ConstInt(x.Y); ok {
+				// (src & m) << s, the mask and conversions in any order: the bits of src that land in the byte
 				w := typeWidthMask(x.X.Type())
-				return []Bit{{Mask: (w << uint(s)) & 0xff, Shift: int(s), Src: R(x.X)}}
+				src := x.X
+				for i := 0; i < 6; i++ {
+					switch y := src.(type) {
+					case *ssa.Convert:
+						w &= typeWidthMask(y.X.Type())
+						src = y.X
+						continue
+					case *ssa.ChangeType:
+						src = y.X
+						continue
+					case *ssa.BinOp:
+						if m, isM := ConstInt(y.Y); isM && y.Op == token.AND {
+							w &= uint64(m)
+							src = y.X
+							continue
+						}
+					}
+					break
+				}
+				return []Bit{{Mask: (w << uint(s)) & 0xff, Shift: int(s), Src: R(src)}}
 			}
 		}
 	case *ssa.Phi:
@@ -250,38 +270,52 @@ func typeWidthMask(t types.Type) uint64 {
 	return 0xffffffffffffffff
 }
 
-// DecodedBits finds, in a decoder, every `(b & mask)` test of the byte value b
-// and what it is assigned to: (b&mask) > 0 / != 0 -> bool field; (b&mask)>>s -> field.
+// DecodedBits finds, in a decoder, which bits of the byte value b reach which destination: the byte is followed
+// through masks, right shifts and conversions in any order ((b & m) >> s, (b >> s) & m, Kind(b>>s) & m), and each
+// chain ends in a comparison with zero (a flag: its mask) or a store (a field: mask and shift).
 func DecodedBits(fn *ssa.Function, b ssa.Value) []Bit {
 	var out []Bit
-	refs := b.Referrers()
-	if refs == nil {
-		return nil
-	}
-	for _, r := range *refs {
-		and, ok := r.(*ssa.BinOp)
-		if !ok || and.Op != token.AND {
-			continue
+	var walk func(v ssa.Value, mask uint64, shift int, masked bool, depth int)
+	walk = func(v ssa.Value, mask uint64, shift int, masked bool, depth int) {
+		refs := v.Referrers()
+		if refs == nil || depth > 8 {
+			return
 		}
-		mask, ok := ConstInt(and.Y)
-		if !ok {
-			continue
-		}
-		for _, r2 := range *and.Referrers() {
-			switch x := r2.(type) {
+		for _, r := range *refs {
+			switch x := r.(type) {
 			case *ssa.BinOp:
+				k, isK := ConstInt(x.Y)
+				if x.X != v || !isK {
+					continue
+				}
 				switch x.Op {
-				case token.GTR, token.NEQ:
-					out = append(out, Bit{Mask: uint64(mask), Src: destOf(x)})
+				case token.AND:
+					walk(x, mask&(uint64(k)<<uint(shift)), shift, true, depth+1)
 				case token.SHR:
-					s, _ := ConstInt(x.Y)
-					out = append(out, Bit{Mask: uint64(mask), Shift: int(s), Src: destOf(x)})
+					ns := shift + int(k)
+					walk(x, mask&(0xff<<uint(ns))&0xff, ns, masked, depth+1)
+				case token.GTR, token.NEQ:
+					if masked && k == 0 {
+						out = append(out, Bit{Mask: mask, Src: destOf(x)})
+					}
 				case token.EQL:
-					out = append(out, Bit{Mask: uint64(mask), Src: "eq:" + destOf(x)})
+					if masked {
+						out = append(out, Bit{Mask: mask, Src: "eq:" + destOf(x)})
+					}
+				}
+			case *ssa.Convert:
+				walk(x, mask, shift, masked, depth+1)
+			case *ssa.ChangeType:
+				walk(x, mask, shift, masked, depth+1)
+			case *ssa.Store:
+				if x.Val == v && (masked || shift > 0) {
+					out = append(out, Bit{Mask: mask, Shift: shift, Src: PathOf(x.Addr).String()})
 				}
 			}
 		}
 	}
+	walk(b, 0xff, 0, false, 0)
+	sort.SliceStable(out, func(i, j int) bool { return out[i].Mask < out[j].Mask })
 	return out
 }
 
